@@ -106,5 +106,5 @@ Definition dispatch (cmd : string) (a : val) : val :=
     VL [VLs parts; VS (Shell.PathAlg.path_str parts); VS (Shell.PathAlg.name parts); VS (Shell.PathAlg.suffix parts);
         VS (Shell.PathAlg.stem parts); VLs (Shell.PathAlg.parent parts); VLs (Shell.PathAlg.joinpath parts other);
         opt (Shell.PathAlg.with_name parts nm); opt (Shell.PathAlg.relative_to parts other);
-        VB (Shell.PathAlg.is_absolute parts)]
+        VB (Shell.PathAlg.is_absolute parts); opt (Shell.PathAlg.resolve_parts parts)]
   else VErr "unknown command".
